@@ -47,6 +47,9 @@ METHODS.update({
     ("poly", "derivative", 0): dict(g="pderiv {0}", ret="poly", fallible=True),
     ("poly", "derivative_n", 1): dict(g="pderiv_n {0} {1}", ret="poly", fallible=True, args=["usize"]),
     ("index", "poly"): dict(g="pindex {0} {1}", ret="elem", fallible=True),
+    ("poly", "is_zero", 0): dict(g="is_zero {0}", ret="bool"),
+    ("poly", "trim", 0): dict(g="ptrim {0}", ret="unit", fallible=True, out=["recv"]),
+    ("vec", "pop", 0): dict(g="removelast {0}", ret="unit", out=["recv"]),
 })
 
 # PATHS[(path, number of args)]
@@ -119,6 +122,10 @@ STRUCTS = {
     "Vector": (["vec"], "{0}", "vec"),
     "Matrix": (["mat", "rows", "cols"], "(mkM {0} {1} {2})", "mat"),
 }
+# `x.m()?` : the value that stands for the propagated Err (a Gallina term of the function's result type, or `Panic k` as a
+# poison value where the error type of the callee has no counterpart in the model: the equality lemma then has to show
+# that the case is unreachable)
+TRY_ERR = {("poly", "degree"): "Panic Unwrap"}
 CONSTS = {"None": ("None", ("opt", "any")), "true": ("true", "bool"), "false": ("false", "bool")}
 
 # ---------------------------------------------------------------------------------------------------- translated functions
@@ -207,6 +214,11 @@ MODULES["Poly"] = dict(
         dict(name="psub", file=P_ARI, impl=r"Sub<&Polynomial<T>>for&Polynomial<T>$", fn="sub"),
         dict(name="pmul", file=P_ARI, impl=r"Mul<&Polynomial<T>>for&Polynomial<T>$", fn="mul"),
         dict(name="pscale", file=P_ARI, impl=r"Mul<T>for&Polynomial<T>$", fn="mul"),
+        dict(name="ptrim", file=P_MOD, impl=r"^<T>Polynomial<T>$", fn="trim",
+             **{"while": {1: dict(fuel="(length {self})", on_exhaust="Panic Guard")}}),
+        dict(name="polydiv", file=P_ARI, impl=r"^<T:Copy\+Clone\+Number\+Signed\+std::fmt::Debug>Polynomial<T>$", fn="polydiv",
+             result_sum=dict(type="pderr", errors=[(r"divide by zero", "EZeroDiv"), (r"exceeded maximum iterations", "EMaxIter")]),
+             **{"while": {1: dict(fuel="(S {MAX})", on_exhaust="(inr EMaxIter)")}}),
     ])
 
 # ---------------------------------------------------------------------------------------------------- Tridiagonal (Model/Tridiag.v)
